@@ -20,6 +20,7 @@ EXPLANATION = (
     "forms; operand order of the reflected forms; dimensionality gate dominating addition/subtraction; the int->"
     "non_int_type cast of true division applies if either operand is an int. Also decided: 0/1 shortcuts on an exponent compare the exponent as given (unit aware) and the exponent used is the root-unit magnitude of a dimensionless quantity or the coerced bare number; int/float/complex coercions agree and use the value in no units; the both-zero equality shortcut needs multiplicative units on both sides; in-place conversion primitives (_convert_magnitude, ito*) are called only by in-place forms on their own target (package-wide who-may-call). Decides these clauses on every loop-free "
     "path of the anchored methods; does not decide numerical agreement, NaN/zero element-wise semantics or broadcasting.")
+EXPLANATION += ' Also decided: the memo rules of Quantity.dimensionality (the dimension gate of + - and ordering reads it).'
 
 ARITH = [("_add_sub", False), ("_iadd_sub", True), ("__floordiv__", False), ("__ifloordiv__", True), ("__rfloordiv__", False),
          ("__mod__", False), ("__imod__", True), ("__rmod__", False), ("__divmod__", False), ("__rdivmod__", False),
@@ -348,4 +349,6 @@ def run(ck, ix, tier):
     eq_zero_rule(ck, ix)  # equality is one of the operators of C03
     from .C16 import inplace_primitives_rule
     inplace_primitives_rule(ck, ix)  # only in-place forms may rescale/rebind their target
+    from .. import memo as _memo3
+    _memo3.rule_quantity_dimensionality_memo(ck, ix)  # the dimension gate of + - < reads the memoised Quantity.dimensionality
     return EXPLANATION
